@@ -178,10 +178,17 @@ let run_history (hline : string) (ops : string list) =
   let s = ref s0 in
   List.iteri (fun i line ->
     let stepn = i + 1 in
-    let o = parse_op (split line) in
-    let (s', x) = step !s o in
-    s := s';
-    pr "O %s %d %s\n" hid stepn (s_out x);
+    (match split line with
+     | ["cyc"; _] ->
+         (* a value object starts referring to an iterator over the tree: outside the model
+            (objects are opaque); no effect on any modelled quantity *)
+         pr "O %s %d %s\n" hid stepn (s_out (match (!s).st_tree with None -> UNoTree | Some _ -> UNone))
+     | toks ->
+         let o = parse_op toks in
+         let (s', x) = step !s o in
+         s := s';
+         pr "O %s %d %s\n" hid stepn (s_out x));
+    let s' = !s in
     if stepn mod dump = 0 || stepn = n then dump_state hid stepn s';
     if Buffer.length buf > 60000 then flush_buf ()) ops;
   (match finish !s with
